@@ -297,15 +297,11 @@ theorem unapplyParts_nonempty (segs : List Seg) (parts : List Bytes) (acc r : KV
 
 /-! ### ambiguity -/
 
-def Seg.litNormal : Seg → Bool
-  | .lit l => pctNormal l
-  | .param _ => true
-
 /-- Two segment lists that both match one list of parts are reported ambiguous, when literals are compared
-percent-decoded (the repaired check) … -/
-theorem ambSegsDec_complete (s1 s2 : List Seg) (parts : List Bytes) (a1 a2 r1 r2 : KV)
+percent-decoded. -/
+theorem ambSegs_complete (s1 s2 : List Seg) (parts : List Bytes) (a1 a2 r1 r2 : KV)
     (h1 : unapplyParts s1 parts a1 = some r1) (h2 : unapplyParts s2 parts a2 = some r2) :
-    ambSegsDec s1 s2 = true := by
+    ambSegs s1 s2 = true := by
   induction s1 generalizing s2 parts a1 a2 with
   | nil =>
     cases parts with
@@ -331,14 +327,14 @@ theorem ambSegsDec_complete (s1 s2 : List Seg) (parts : List Bytes) (a1 a2 r1 r2
               simp only [unapplyParts] at h2
               split at h2
               · rename_i hl2
-                simp only [ambSegsDec, ← hl, ← hl2, ↓reduceIte]
+                simp only [ambSegs, ← hl, ← hl2, ↓reduceIte]
                 exact ih ts ps a1 a2 h1 h2
               · simp at h2
             | param n2 =>
               simp only [unapplyParts] at h2
               split at h2
               · simp at h2
-              · simp only [ambSegsDec]; exact ih ts ps a1 _ h1 h2
+              · simp only [ambSegs]; exact ih ts ps a1 _ h1 h2
           · simp at h1
         | param n =>
           simp only [unapplyParts] at h1
@@ -348,30 +344,13 @@ theorem ambSegsDec_complete (s1 s2 : List Seg) (parts : List Bytes) (a1 a2 r1 r2
             | lit l2 =>
               simp only [unapplyParts] at h2
               split at h2
-              · simp only [ambSegsDec]; exact ih ts ps _ a2 h1 h2
+              · simp only [ambSegs]; exact ih ts ps _ a2 h1 h2
               · simp at h2
             | param n2 =>
               simp only [unapplyParts] at h2
               split at h2
               · simp at h2
-              · simp only [ambSegsDec]; exact ih ts ps _ _ h1 h2
-
-/-- … and the raw comparison of the current code agrees with it on percent-normal literals. -/
-theorem ambSegs_eq_dec (s1 s2 : List Seg) (n1 : ∀ s ∈ s1, s.litNormal = true) (n2 : ∀ s ∈ s2, s.litNormal = true) :
-    ambSegs s1 s2 = ambSegsDec s1 s2 := by
-  induction s1 generalizing s2 with
-  | nil => cases s2 <;> simp [ambSegs, ambSegsDec]
-  | cons s ss ih =>
-    cases s2 with
-    | nil => cases s <;> simp [ambSegs, ambSegsDec]
-    | cons t ts =>
-      have ih' := ih ts (fun x hx => n1 x (by simp [hx])) (fun x hx => n2 x (by simp [hx]))
-      have hs := n1 s (by simp)
-      have ht := n2 t (by simp)
-      cases s <;> cases t <;> simp only [ambSegs, ambSegsDec, ih']
-      rename_i a b
-      simp only [Seg.litNormal, pctNormal, beq_iff_eq] at hs ht
-      rw [hs, ht]
+              · simp only [ambSegs]; exact ih ts ps _ _ h1 h2
 
 theorem pctDecode_eq_nil {l : Bytes} (h : pctDecode l = []) : l = [] := by
   cases l with
@@ -426,24 +405,24 @@ theorem unapplyParts_empty_first (segs : List Seg) (ps : List Bytes) (acc r : KV
         simp [Seg.litNonempty, this] at hs
       · simp at h
 
-theorem areAmbiguousDec_complete (p q : Pat) (sch : Option Bytes) (path : Bytes) (r1 r2 : KV)
+theorem areAmbiguous_complete (p q : Pat) (sch : Option Bytes) (path : Bytes) (r1 r2 : KV)
     (lp : ∀ s ∈ p.segs, s.litNonempty = true) (lq : ∀ s ∈ q.segs, s.litNonempty = true)
     (hp : p.unapplyUri sch path = some r1) (hq : q.unapplyUri sch path = some r2) :
-    areAmbiguousDec p q = true := by
+    areAmbiguous p q = true := by
   obtain ⟨ps1, h1, c1⟩ := unapplyUri_parts hp
   obtain ⟨ps2, h2, c2⟩ := unapplyUri_parts hq
-  unfold areAmbiguousDec
+  unfold areAmbiguous
   rcases c1 with ⟨_, e1⟩ | ⟨_, e1⟩ <;> rcases c2 with ⟨_, e2⟩ | ⟨_, e2⟩
   · have : ps1 = ps2 := by rw [e1] at e2; simpa using e2
     subst this
-    exact ambSegsDec_complete _ _ _ _ _ _ _ h1 h2
+    exact ambSegs_complete _ _ _ _ _ _ _ h1 h2
   · rw [e1] at e2; subst e2
     exact (unapplyParts_empty_first _ _ _ _ lq h2).elim
   · rw [e2] at e1; subst e1
     exact (unapplyParts_empty_first _ _ _ _ lp h1).elim
   · have : ps1 = ps2 := by rw [e1] at e2; exact e2
     subst this
-    exact ambSegsDec_complete _ _ _ _ _ _ _ h1 h2
+    exact ambSegs_complete _ _ _ _ _ _ _ h1 h2
 
 /-! ### `RoutePattern::parse` invariants -/
 
@@ -531,7 +510,7 @@ def segNames (segs : List Segment) : List Bytes :=
   segs.filterMap fun s => if s.parameter then some s.str else none
 
 theorem dupCheck_nodup (seen : List Bytes) (segs : List Segment) (h : dupCheck seen segs = .ok ()) :
-    (segNames segs).Nodup ∧ ∀ n ∈ segNames segs, n ∉ seen := by
+    ((segNames segs).map decodeLossy).Nodup ∧ ∀ n ∈ (segNames segs).map decodeLossy, n ∉ seen := by
   induction segs generalizing seen with
   | nil => simp [segNames]
   | cons s rest ih =>
@@ -543,7 +522,7 @@ theorem dupCheck_nodup (seen : List Bytes) (segs : List Segment) (h : dupCheck s
       · rename_i hns
         have := ih _ h
         have hn : segNames (s :: rest) = s.str :: segNames rest := by simp [segNames, hp]
-        rw [hn]
+        rw [hn, List.map_cons]
         refine ⟨List.nodup_cons.mpr ⟨?_, this.1⟩, ?_⟩
         · intro hin; exact (this.2 _ hin) (by simp)
         · intro n hn'
@@ -555,13 +534,22 @@ theorem dupCheck_nodup (seen : List Bytes) (segs : List Segment) (h : dupCheck s
       have hn : segNames (s :: rest) = segNames rest := by simp [segNames, hp]
       rw [hn]; exact ih _ h
 
+theorem nodup_of_map_nodup {α β : Type} (f : α → β) (xs : List α) (h : (xs.map f).Nodup) : xs.Nodup := by
+  induction xs with
+  | nil => exact List.nodup_nil
+  | cons x rest ih =>
+    simp only [List.map_cons, List.nodup_cons] at h
+    refine List.nodup_cons.mpr ⟨?_, ih h.2⟩
+    intro hin; exact h.1 (List.mem_map.mpr ⟨x, hin, rfl⟩)
 
 def Seg.structOk : Seg → Bool
   | .lit l => !l.isEmpty && !l.contains 47
   | .param n => !n.isEmpty && !n.contains 47 && !n.contains 58
 
-/-- Everything `RoutePattern::parse` guarantees about an accepted pattern. -/
-def Pat.structOk (p : Pat) : Bool := p.segs.all Seg.structOk && nodupB p.params && firstLitOk p
+/-- Everything `RoutePattern::parse` guarantees about an accepted pattern (names are pairwise different even
+after percent-decoding). -/
+def Pat.structOk (p : Pat) : Bool :=
+  p.segs.all Seg.structOk && nodupB p.params && firstLitOk p && nodupB (p.params.map decodeLossy)
 
 theorem nodup_nodupB (xs : List Bytes) (h : xs.Nodup) : nodupB xs = true := by
   induction xs with
@@ -605,10 +593,15 @@ theorem parsePattern_structOk (s : Bytes) (p : Pat) (h : parsePattern s = .ok p)
         have hnd := (dupCheck_nodup [] segments hdup).1
         simp only [Pat.structOk, Bool.and_eq_true, List.all_eq_true, List.mem_map, forall_exists_index, and_imp,
           forall_apply_eq_imp_iff₂]
-        refine ⟨⟨fun s hs => toSeg_structOk s (hgood s hs), ?_⟩, ?_⟩
+        refine ⟨⟨⟨fun s hs => toSeg_structOk s (hgood s hs), ?_⟩, ?_⟩, ?_⟩
+        rotate_left
+        rotate_left
         · apply nodup_nodupB
           simp only [Pat.params]
           rw [params_map_toSeg]; exact hnd
+        · apply nodup_nodupB
+          simp only [Pat.params]
+          rw [params_map_toSeg]; exact nodup_of_map_nodup _ _ hnd
         · unfold firstLitOk
           simp only
           split
@@ -762,6 +755,18 @@ theorem eatPath_append (x t : Bytes) (hx : eatPath x = []) : eatPath (x ++ t) = 
 
 /-- Bytes that survive `apply` + the URI parser: escaped by `apply`, or accepted raw by `is_path_char`. -/
 def uriSafe (v : Bytes) : Bool := v.all fun b => shouldEncode b || pathChar b
+
+/-- Table fact (re-checked against the source on every run): every ASCII byte is escaped by `apply` or accepted
+raw by `is_path_char` — in particular `~`, which `URL_ENCODE` leaves alone. -/
+theorem all_ascii_safe : ∀ b, b < 128 → (shouldEncode b || pathChar b) = true := by decide
+
+theorem uriSafe_all (v : Bytes) : uriSafe v = true := by
+  simp only [uriSafe, List.all_eq_true]
+  intro b _
+  by_cases hb : b < 128
+  · exact all_ascii_safe b hb
+  · have : shouldEncode b = true := by simp [shouldEncode]; left; omega
+    simp [this]
 
 theorem eatPath_encByte (b : Nat) (t : Bytes) (hb : b < 256) (hs : (shouldEncode b || pathChar b) = true) :
     eatPath (encByte b ++ t) = eatPath t := by
@@ -944,13 +949,6 @@ theorem pctEncode_ne_nil (v : Bytes) (h : v ≠ []) : pctEncode v ≠ [] := by
     simp only [pctEncode, encByte]
     split <;> simp
 
-/-- Every parameter value is made of bytes that `apply` escapes or the URI parser accepts raw. -/
-def Seg.safeIn (m : KV) : Seg → Bool
-  | .lit _ => true
-  | .param n => uriSafe (valOf m n)
-
-def Pat.safeIn (p : Pat) (m : KV) : Bool := p.segs.all (Seg.safeIn m)
-
 /-- `Pat.wf` (scheme, literals and names acceptable to the URI parser; see `Model/RouteMon.lean`) plus distinct
 names. -/
 def Pat.strWf (p : Pat) : Bool := p.wf && nodupB p.params
@@ -963,19 +961,16 @@ theorem strWf_rtWf (p : Pat) (h : p.strWf = true) : p.rtWf = true := by
   have := h.1.1.2 s hs
   cases s <;> simp_all [Seg.wf, Seg.rtOk]
 
-theorem parseUri_apply (p : Pat) (m : KV) (hwf : p.strWf = true) (hb : p.boundBy m = true)
-    (hsafe : p.safeIn m = true) :
+theorem parseUri_apply (p : Pat) (m : KV) (hwf : p.strWf = true) (hb : p.boundBy m = true) :
     parseUri (schemePrefix p.scheme ++ p.pathOf m) = some ⟨p.scheme, p.pathOf m, none, none⟩ := by
   simp only [Pat.strWf, Pat.wf, Bool.and_eq_true, List.all_eq_true, Bool.not_eq_eq_eq_not, Bool.not_true] at hwf
   obtain ⟨⟨⟨⟨hsch, hne⟩, hsegs⟩, hfirst⟩, hnd⟩ := hwf
   simp only [Pat.boundBy, List.all_eq_true] at hb
-  simp only [Pat.safeIn, List.all_eq_true] at hsafe
   -- every rendered part is accepted in full by `path_segment`, is non-empty and `/`-free
   have hpart : ∀ s ∈ p.segs, segOk (partOf m s) = true ∧ partOf m s ≠ [] ∧ (∀ b ∈ partOf m s, b ≠ 47) := by
     intro s hs
     have hw := hsegs s hs
     have hbs := hb s hs
-    have hsf := hsafe s hs
     cases s with
     | lit l =>
       simp only [Seg.wf, Bool.and_eq_true, Bool.not_eq_eq_eq_not, Bool.not_true] at hw
@@ -990,9 +985,8 @@ theorem parseUri_apply (p : Pat) (m : KV) (hwf : p.strWf = true) (hb : p.boundBy
         simp only [hg, Bool.and_eq_true, Bool.not_eq_eq_eq_not, Bool.not_true, List.all_eq_true,
           decide_eq_true_eq] at hbs
         have hv : valOf m n = v := by simp [valOf, hg]
-        simp only [Seg.safeIn, hv] at hsf
         simp only [partOf, hv]
-        refine ⟨segOk_pctEncode v hbs.2 hsf, pctEncode_ne_nil v ?_, pctEncode_no_slash v⟩
+        refine ⟨segOk_pctEncode v hbs.2 (uriSafe_all v), pctEncode_ne_nil v ?_, pctEncode_no_slash v⟩
         intro h0; simp [h0] at hbs
   cases hsg : p.segs with
   | nil => simp [hsg] at hne
